@@ -434,7 +434,12 @@ def pkcs1_decrypt(data: bytes, pkcs1_dek_name: bytes, iv: bytes,
 
     if pkcs1_dek_name in _pkcs1_cipher:
         cipher_name = _pkcs1_cipher[pkcs1_dek_name]
-        key_size, _, block_size = get_cipher_params(cipher_name)
+        key_size, iv_size, block_size = get_cipher_params(cipher_name)
+
+        if len(iv) != iv_size:
+            raise KeyEncryptionError('Invalid length IV for PKCS#1 '
+                                     'encryption')
+
         key = _pbkdf1(md5, passphrase, iv[:8], 1, key_size)
 
         cipher = _RFC1423Pad(cipher_name, block_size, key, iv)
